@@ -131,6 +131,8 @@ func runC22(c *engine.Ctx) {
 	r1 := c.Rule("R1", "every goroutine root reaching a user storage/codec call begins with a deferred recover routed through panics.PanicHandler", 2)
 	r2 := c.Rule("R2", "the recovered panic becomes the traversal's completion error and the stop signal fires on every path", 1)
 	r3 := c.Rule("R3", "the configured panic callback reaches both managers, TraversalBuilder.PanicCallback and panics.MakeHandler", 3)
+	r4 := c.Rule("R4", "a traversal error that is neither a cancellation nor a pause (a recovered panic included) is delivered on the request's error channel on every path", 1)
+	c22ErrorDelivered(c, r4)
 
 	g := engine.BuildRootGraph(c.P)
 	sinks := c22Sinks(c)
@@ -292,4 +294,99 @@ func allStores(f *ssa.Function) []*ssa.Store {
 
 func isErrorType(t types.Type) bool {
 	return types.Identical(t, types.Universe.Lookup("error").Type())
+}
+
+// c22ErrorDelivered (R4): the requestor's executor is evaluated in the finite domain with the traversal made to fail
+// with an error that is neither a context cancellation nor a pause — the shape in which a recovered panic arrives.
+// On every path that returns after the traversal, the select that hands the error to the request's error channel
+// must have been executed (a request whose panic is swallowed looks like a clean, truncated completion).
+func c22ErrorDelivered(c *engine.Ctx, rule string) {
+	ex := c.P.Func("requestmanager/executor", "Executor", "ExecuteTask")
+	errF := c.P.Field("requestmanager/executor", "RequestTask", "InProgressErr")
+	if ex == nil || errF == nil {
+		c.AnchorMissing(rule, "executor.Executor.ExecuteTask / RequestTask.InProgressErr")
+		return
+	}
+	c.Analysed(engine.FuncName(ex))
+	// the traversal step: the static call to a method of Executor whose result (or last result) is an error and
+	// which is handed the request task
+	var trav *ssa.Call
+	for _, ci := range engine.Calls(ex) {
+		if ci.Static == nil || engine.FuncPkgPath(ci.Static) != engine.Module+"/requestmanager/executor" || ci.Static.Signature.Recv() == nil {
+			continue
+		}
+		res := ci.Static.Signature.Results()
+		if res.Len() == 0 || res.At(res.Len()-1).Type().String() != "error" {
+			continue
+		}
+		if call := ci.Value(); call != nil {
+			trav = call
+		}
+	}
+	// the delivering select
+	var deliver *ssa.Select
+	engine.Instrs(ex, func(in ssa.Instruction) {
+		if sel, ok := in.(*ssa.Select); ok {
+			for _, st := range sel.States {
+				if st.Dir == types.SendOnly && fieldReadOf(st.Chan) == errF {
+					deliver = sel
+				}
+			}
+		}
+	})
+	if trav == nil || deliver == nil {
+		c.Violate(rule, engine.FuncName(ex), ex.Pos(), "the executor no longer hands traversal errors to the request's error channel")
+		return
+	}
+	isTravErr := func(v ssa.Value) bool {
+		if v == ssa.Value(trav) && trav.Type().String() == "error" {
+			return true
+		}
+		if e, ok := v.(*ssa.Extract); ok && e.Tuple == ssa.Value(trav) && e.Type().String() == "error" {
+			return true
+		}
+		return false
+	}
+	missed := false
+	var where token.Pos
+	ev := &engine.Evaluator{MaxVisits: 2}
+	ev.Input = func(v ssa.Value) (engine.EVal, bool) {
+		if isTravErr(v) {
+			return engine.EVal{K: engine.EPtr, Tok: trav}, true
+		}
+		// `_, isX := err.(SomeErrType)` on the traversal error (an inlined is-paused / is-cancelled test): not that type
+		if e, ok := v.(*ssa.Extract); ok && e.Index == 1 {
+			if ta, ok := e.Tuple.(*ssa.TypeAssert); ok && ta.CommaOk && isTravErr(engine.LocalValue(ta.X)) {
+				return engine.EVal{K: engine.EBool, B: false}, true
+			}
+		}
+		return engine.EVal{}, false
+	}
+	ev.Call = func(call *ssa.Call, get func(ssa.Value) engine.EVal) (engine.EVal, bool) {
+		if call == trav {
+			return engine.EVal{K: engine.EPtr, Tok: trav}, true // executed marker
+		}
+		if sc := call.Call.StaticCallee(); sc != nil && len(call.Call.Args) == 1 && isTravErr(call.Call.Args[0]) {
+			if b, ok := sc.Signature.Results().At(0).Type().Underlying().(*types.Basic); ok && sc.Signature.Results().Len() == 1 && b.Kind() == types.Bool {
+				return engine.EVal{K: engine.EBool, B: false}, true // neither a cancellation nor a pause
+			}
+		}
+		return engine.EVal{}, false
+	}
+	ev.Observe = func(in ssa.Instruction, get func(ssa.Value) engine.EVal) {
+		if r, ok := in.(*ssa.Return); ok {
+			if engine.Before(trav, r) && get(deliver).K != engine.EPtr {
+				missed = true
+				where = r.Pos()
+			}
+		}
+	}
+	ev.Run(ex)
+	if ev.Aborted {
+		c.Undecided(rule, engine.FuncName(ex), ex.Pos(), "path bound exceeded while evaluating the executor")
+		return
+	}
+	c.Decide(rule, engine.FuncName(ex), deliver.Pos(), !missed,
+		"every path after a failed traversal (not cancelled, not paused) executes the select that delivers the error to the request",
+		"after a traversal that failed (not cancelled, not paused) the executor can return at "+c.P.Pos(where)+" without handing the error to the request's error channel: a panic recovered in per-request code then looks like a clean completion of a truncated traversal")
 }
